@@ -2,6 +2,7 @@ SPECIFICATION Spec
 CONSTANTS
   FSet = {7, 12}
   TSet = {3, 4}
+  Focus = "all"
   EmitOn = FALSE
 INVARIANT SubstepsPositive
 INVARIANT ZeroDriftOneStep
